@@ -3,7 +3,7 @@
 import json, os, subprocess
 ROOT = os.path.dirname(os.path.dirname(os.path.abspath(__file__)))
 
-SCHED = "schedule-generating property-based testing: proptest generates and shrinks (configuration, per-thread programs, schedule); the real instrumented code runs on a serialising scheduler; oracle over the call log"
+SCHED = "schedule-generating property-based testing: proptest generates and shrinks (configuration, per-thread programs, schedule); the real instrumented code runs on a serialising scheduler; oracle over the call log; plus systematic enumeration of all one-deviation (thorough: two-deviation) schedules per generated scenario where listed, and in the thorough tier a libFuzzer+ASan campaign with a structure-aware mutator over serialised scenarios"
 SEQ = "stateful model-based property-based testing (proptest histories + bounded-exhaustive enumeration) against an executable reference model"
 TRUST = "trusted base: the shim in src/verif_hooks.rs (thin wrappers over the real primitives), the harness scheduler and oracles in /verif/harness; only sequentially consistent interleavings are explored"
 
@@ -89,6 +89,8 @@ def main():
              "kind_free_text": "single managed thread executing API histories against the reference model, with per-call step bounds"},
             {"name": "E3 memacct", "path": "harness/src/mem.rs", "serves_properties": ["C17"],
              "kind_free_text": "counting global allocator that attributes allocations made inside calls into the crate"},
+            {"name": "E4 covfuzz", "path": "harness/fuzz", "serves_properties": ["C01","C02","C03","C04","C06","C07","C08","C10","C11","C12","C13","C14","C15","C16","C18"],
+             "kind_free_text": "thorough tier: libFuzzer + AddressSanitizer over serialised scenarios with a structure-aware custom mutator; the property's oracle runs inside the target"},
             {"name": "E5 typeprobe", "path": "check", "serves_properties": ["C19"],
              "kind_free_text": "generated rustc probe programs for the Send/Sync table"},
         ],
